@@ -102,6 +102,16 @@ func allSchemas(r *core.Run, emit func(section, schema string)) {
 	for _, s := range st {
 		emit("L2", `{`+s+`}`)
 	}
+	// three-member combinators over the first six sub-schemas
+	for _, a := range subs[:6] {
+		for _, b := range subs[:6] {
+			for _, c := range subs[:6] {
+				for _, kw := range []string{"allOf", "anyOf", "oneOf"} {
+					emit("L2-ternary", `{"`+kw+`":[`+a+`,`+b+`,`+c+`]}`)
+				}
+			}
+		}
+	}
 	for _, s := range st {
 		for _, l := range leaves {
 			if strings.Contains(s, `"`+l.k+`"`) {
@@ -241,7 +251,7 @@ func keywordsOf(schema string) string {
 func tags(schema string) string {
 	var x any
 	json.Unmarshal([]byte(schema), &x)
-	falseComb, container, propNames := false, false, false
+	falseComb, container, propNames, allOf3 := false, false, false, false
 	isContainer := func(v any) bool {
 		switch v.(type) {
 		case map[string]any, []any:
@@ -258,6 +268,9 @@ func tags(schema string) string {
 		for k, v := range m {
 			switch k {
 			case "allOf", "anyOf", "oneOf":
+				if k == "allOf" && len(v.([]any)) >= 3 {
+					allOf3 = true
+				}
 				for _, e := range v.([]any) {
 					if b, ok := e.(bool); ok && !b {
 						falseComb = true
@@ -297,6 +310,9 @@ func tags(schema string) string {
 	}
 	if propNames {
 		t += " uses-propertyNames"
+	}
+	if allOf3 {
+		t += " allOf-with-3-or-more-members"
 	}
 	return t
 }
